@@ -11,6 +11,17 @@
   union_validate   {"src": {"kind": "mapping"|"object"|"unusable", "type": str | null, "coordinates": raw | null}}
   instance_validate{"mode": str, "cls": name, "type": str, "coordinates": raw} -> {"asis": reply, "demand": reply}
   replies          {"val": {"type": t, "cls": class name, "coordinates": raw}} | {"raise": "invalid"}
+  follow-up (construction paths, histories):
+  obj kind "attrobj" {"kind": "attrobj", "type": where, "coordinates": where}
+                   where = {"inst": v | null, "cls": {"how": "plain" | "data", "value": v | null} | null, "dyn": v | null}
+                   (the model reads the object through `Where.get` = Python's `getattr`)
+  "call" (optional, geometry_validate / construct): how the arguments are passed –
+                   "pos" f(o, m) | "kw" f(o, mode=m) | "allkw" f(obj=o, mode=m) | "kwrev" f(mode=m, obj=o)
+                   | "default" f(o) | "objkw" f(obj=o); constructor: "kw" | "kwrev"; bound by `bindArgs` under the
+                   model's signature; a call that does not bind is {"raise": "type"}
+  class_validate   {"cls": name, "fa": bool, "src": {"kind": "mapping"|"object"|"unusable", "type", "coordinates"}}
+  history          {"calls": [{"op": "construct"|"class_validate"|"geometry_validate"|"union_validate", "args": …}]}
+                   -> list of replies (`SE.Validate.history`)
 -/
 import SoundeventModel.Ops.Common
 import SoundeventModel.Validate
@@ -42,6 +53,23 @@ def getDoc (j : Json) : Except String Doc :=
   | .str "other" => .ok .other
   | j => do return .dict (← optStr j "type") (← optRaw j "coordinates")
 
+def getWhere {α} (rd : Json → Except String α) (j : Json) : Except String (Where α) := do
+  let opt (k : String) : Except String (Option α) :=
+    match fldOpt j k with
+    | none => .ok none
+    | some v => do return some (← rd v)
+  let cls : Option (ClsAttr α) ← match fldOpt j "cls" with
+    | none => pure none
+    | some c => do
+      let v : Option α ← (match fldOpt c "value" with
+        | none => pure none
+        | some v => do return some (← rd v))
+      match ← fldStr c "how", v with
+      | "plain", some v => pure (some (ClsAttr.plain v))
+      | "data", v => pure (some (ClsAttr.data v))
+      | h, _ => throw s!"bad class attribute {h}"
+  return { inst := ← opt "inst", cls := cls, dyn := ← opt "dyn" }
+
 def getObj (j : Json) : Except String PyObj := do
   match ← fldStr j "kind" with
   | "str" =>
@@ -50,6 +78,10 @@ def getObj (j : Json) : Except String PyObj := do
     | some d => return .str (some (← getDoc d))
   | "val" => return .val (← getDoc (← fld j "doc"))
   | "attrs" => return .attrs (← optStr j "type") (← optRaw j "coordinates")
+  | "attrobj" =>
+    let ty ← getWhere (fun v => v.getStr?) (← fld j "type")
+    let co ← getWhere getRaw (← fld j "coordinates")
+    return .ofAttrObj ⟨ty, co⟩
   | k => .error s!"unknown object kind {k}"
 
 def getMode : String → Mode
@@ -88,13 +120,70 @@ def getOut (j : Json) : Except String (Option (R Geom)) := do
     | some g => return some (.ok g)
     | none => return none
 
+/-- the signatures of the model (the table obligations `geometry_validate-signature` /
+    `constructor-signatures` show on every run that the code's satisfy `gvSigOkB` / `ctorSigOkB`) -/
+def gvSig : Sig := [⟨"obj", .posOrKw, none⟩, ⟨"mode", .posOrKw, some "json"⟩]
+def ctorSig (tag : String) : Sig := [⟨"type", .kwOnly, some tag⟩, ⟨"coordinates", .kwOnly, none⟩]
+
+def optResJ : Option (R Obj) → Json
+  | some r => resJ r
+  | none => Json.mkObj [("raise", Json.str "type")]
+
+def getSource (src : Json) : Except String Source := do
+  match ← fldStr src "kind" with
+  | "mapping" => pure (Source.mapping (← optStr src "type") (← optRaw src "coordinates"))
+  | "object" => pure (Source.object (← optStr src "type") (← optRaw src "coordinates"))
+  | _ => pure Source.unusable
+
+def doConstruct (a : Json) : Except String Json := do
+  let c ← getCls (← fldStr a "cls")
+  let t ← optStr a "type"
+  let r ← optRaw a "coordinates"
+  match fldOpt a "call" with
+  | none => return resJ (construct c t r)
+  | some st =>
+    let kwT : List (String × CtorArg) := match t with | some t => [("type", .type t)] | none => []
+    let kwR : List (String × CtorArg) := match r with | some r => [("coordinates", .coordinates r)] | none => []
+    match ← st.getStr? with
+    | "kw" => return optResJ (callConstruct c (ctorSig c.dflt) (kwT ++ kwR))
+    | "kwrev" => return optResJ (callConstruct c (ctorSig c.dflt) (kwR ++ kwT))
+    | s => .error s!"construct: unknown call style {s}"
+
+def doGeometryValidate (a : Json) : Except String Json := do
+  let m ← fldStr a "mode"
+  let o ← getObj (← fld a "obj")
+  match fldOpt a "call" with
+  | none => return resJ (geometryValidate table (getMode m) o)
+  | some st =>
+    match ← st.getStr? with
+    | "pos" => return optResJ (callGeometryValidate table gvSig [.obj o, .mode m] [])
+    | "kw" => return optResJ (callGeometryValidate table gvSig [.obj o] [("mode", .mode m)])
+    | "allkw" => return optResJ (callGeometryValidate table gvSig [] [("obj", .obj o), ("mode", .mode m)])
+    | "kwrev" => return optResJ (callGeometryValidate table gvSig [] [("mode", .mode m), ("obj", .obj o)])
+    | "default" => return optResJ (callGeometryValidate table gvSig [.obj o] [])
+    | "objkw" => return optResJ (callGeometryValidate table gvSig [] [("obj", .obj o)])
+    | s => .error s!"geometry_validate: unknown call style {s}"
+
+def getCall (j : Json) : Except String Call := do
+  let a ← fld j "args"
+  match ← fldStr j "op" with
+  | "construct" => return .construct (← getCls (← fldStr a "cls")) (← optStr a "type") (← optRaw a "coordinates")
+  | "class_validate" =>
+    return .classValidate (← getCls (← fldStr a "cls")) (← (← fld a "fa").getBool?) (← getSource (← fld a "src"))
+  | "geometry_validate" => return .geometryValidate (getMode (← fldStr a "mode")) (← getObj (← fld a "obj"))
+  | "union_validate" => return .union (← getSource (← fld a "src"))
+  | o => .error s!"history: unknown call {o}"
+
 def handle (op : String) (a : Json) : Except String Json := do
   match op with
-  | "construct" =>
+  | "construct" => doConstruct a
+  | "geometry_validate" => doGeometryValidate a
+  | "class_validate" =>
     let c ← getCls (← fldStr a "cls")
-    return resJ (construct c (← optStr a "type") (← optRaw a "coordinates"))
-  | "geometry_validate" =>
-    return resJ (geometryValidate table (getMode (← fldStr a "mode")) (← getObj (← fld a "obj")))
+    return resJ (classValidate c (← (← fld a "fa").getBool?) (← getSource (← fld a "src")))
+  | "history" =>
+    let calls ← (← (← fld a "calls").getArr?).toList.mapM getCall
+    return arrJ ((history table allClasses calls).map resJ)
   | "holds" =>
     let c ← getCls (← fldStr a "cls")
     let r ← getRaw (← fld a "coordinates")
@@ -103,12 +192,7 @@ def handle (op : String) (a : Json) : Except String Json := do
     | none => return boolJ false
   | "union_validate" =>
     -- {"src": {"kind": "mapping" | "object" | "unusable", "type": str | null, "coordinates": raw | null}}
-    let src ← fld a "src"
-    let source : Source ← match ← fldStr src "kind" with
-      | "mapping" => pure (Source.mapping (← optStr src "type") (← optRaw src "coordinates"))
-      | "object" => pure (Source.object (← optStr src "type") (← optRaw src "coordinates"))
-      | _ => pure Source.unusable
-    return resJ (unionValidate allClasses source)
+    return resJ (unionValidate allClasses (← getSource (← fld a "src")))
   | "instance_validate" =>
     -- an existing instance of class `cls` whose fields are now `type`, `coordinates` (of the shape
     -- of the class): `asis` = the code as it is (pass-through), `demand` = read as attribute object
